@@ -11,3 +11,4 @@ INVARIANT C12_PoolClass
 POSTCONDITION Consumed
 CHECK_DEADLOCK FALSE
 CONSTANT KeyMergesWsIntoHttp = FALSE
+CONSTANT SetterDropsTls = FALSE
